@@ -15,6 +15,7 @@ import (
 	"fmt"
 	"go/ast"
 	"go/parser"
+	"go/printer"
 	"go/token"
 	"go/types"
 	"reflect"
@@ -36,6 +37,7 @@ func remethodise(c *Ctx) (map[string]bool, []string) {
 		}
 		p := c.Pkgs[pk]
 		funcs, _ := declaredMembers(pk, p.Types)
+		curBodies := bodyFingerprints(pk, p.Syntax)
 		var missing []string
 		for k := range knownSigs {
 			if strings.HasPrefix(k, pk+":") && strings.Contains(strings.TrimPrefix(k, pk+":"), ".") {
@@ -48,13 +50,60 @@ func remethodise(c *Ctx) (map[string]bool, []string) {
 		for _, mk := range missing {
 			tname, mname, _ := strings.Cut(strings.TrimPrefix(mk, pk+":"), ".")
 			fkey := pk + ":" + mname
-			if _, isRef := knownSigs[fkey]; isRef {
-				continue // a plain function of that name exists on the reference tree as well
-			}
 			fobj, _ := p.Types.Scope().Lookup(mname).(*types.Func)
+			if _, isRef := knownSigs[fkey]; isRef {
+				fobj = nil // a plain function of that name exists on the reference tree as well
+			}
 			tobj, _ := p.Types.Scope().Lookup(tname).(*types.TypeName)
-			if fobj == nil || tobj == nil {
+			if tobj == nil {
 				continue
+			}
+			if fobj == nil {
+				// renamed on the way: the new plain function whose body selects and calls what the method's did
+				best, bestScore, tie := "", 0, false
+				for k := range funcs {
+					if _, isRef := knownSigs[k]; isRef || strings.Contains(strings.TrimPrefix(k, pk+":"), ".") {
+						continue
+					}
+					// fields of the receiver that the method selected are now selected at the call sites and passed in
+					cb := curBodies[k]
+					if co, _ := p.Types.Scope().Lookup(strings.TrimPrefix(k, pk+":")).(*types.Func); co != nil {
+						for _, f := range p.Syntax {
+							ast.Inspect(f, func(n ast.Node) bool {
+								if ce, ok := n.(*ast.CallExpr); ok {
+									if id, ok := ce.Fun.(*ast.Ident); ok && p.TypesInfo.Uses[id] == types.Object(co) {
+										for _, a := range ce.Args {
+											ast.Inspect(a, func(m ast.Node) bool {
+												if se, ok := m.(*ast.SelectorExpr); ok {
+													cb += " " + se.Sel.Name
+												}
+												return true
+											})
+										}
+									}
+								}
+								return true
+							})
+						}
+					}
+					sc := jaccardPermille(knownBodies[mk], cb)
+					if s0 := jaccardPermille(knownBodies[mk], curBodies[k]); s0 > sc {
+						sc = s0 // the receiver itself was passed: nothing moved to the call sites
+					}
+					if sc > bestScore {
+						best, bestScore, tie = k, sc, false
+					} else if sc == bestScore {
+						tie = true
+					}
+				}
+				if best == "" || tie || bestScore < 600 {
+					continue
+				}
+				fobj, _ = p.Types.Scope().Lookup(strings.TrimPrefix(best, pk+":")).(*types.Func)
+				if fobj == nil {
+					continue
+				}
+				fkey = best
 			}
 			// the declaration
 			var decl *ast.FuncDecl
@@ -147,6 +196,10 @@ func remethodise(c *Ctx) (map[string]bool, []string) {
 						base = a
 					} else if se, ok := a.(*ast.SelectorExpr); ok && isRecvOfType(p.TypesInfo, se.X, tobj) {
 						base, sel = se.X, se.Sel.Name
+					} else if rb := soleRecvIdent(p.TypesInfo, a, tobj); rb != nil {
+						// an expression over the receiver's fields and constants (n.OutVersion == V2): carried over
+						// with the receiver substituted
+						base, sel = rb, "=expr:"+exprWithRecv(a, rb.Name)
 					} else {
 						okAll = false
 						break
@@ -176,6 +229,8 @@ func remethodise(c *Ctx) (map[string]bool, []string) {
 			for i := 0; i < k; i++ {
 				if sels[i] == "" {
 					fwd = append(fwd, "zzrecv")
+				} else if strings.HasPrefix(sels[i], "=expr:") {
+					fwd = append(fwd, strings.TrimPrefix(sels[i], "=expr:"))
 				} else {
 					fwd = append(fwd, "zzrecv."+sels[i])
 				}
@@ -207,6 +262,7 @@ func remethodise(c *Ctx) (map[string]bool, []string) {
 			fname := "zzfn" + strings.ToUpper(mname[:1]) + mname[1:]
 			src := fmt.Sprintf("package %s\nfunc (zzrecv *%s) %s(%s)%s {\n\t%s%s(%s)\n}\n", p.Types.Name(), tname, mname, strings.Join(params, ", "), results, ret, fname, strings.Join(fwd, ", "))
 			wf, err := parser.ParseFile(c.Fset, fmt.Sprintf("zzremethod_%s_%s.go", strings.ReplaceAll(pk, "/", "_"), mname), src, 0)
+			_ = fkey
 			if err != nil || len(wf.Decls) != 1 {
 				continue
 			}
@@ -222,6 +278,192 @@ func remethodise(c *Ctx) (map[string]bool, []string) {
 			decl.Name.Name = fname
 			changed[pk] = true
 			notes = append(notes, fmt.Sprintf("re-introduced method %s as a wrapper of the new plain function %s (%d call sites rewritten to method calls)", mk, fkey, len(calls)))
+		}
+	}
+	ch2, n2 := demethodise(c)
+	for k := range ch2 {
+		changed[k] = true
+	}
+	return changed, append(notes, n2...)
+}
+
+// demethodise: the converse. A reference plain function F(…, x *T, …) is missing and a new method (*T).F with the
+// remaining parameters exists: F is re-introduced as a wrapper calling the method on that parameter, and the method
+// calls X.F(args) become F(…, X, …). The method, renamed, is new to the package and is folded into the wrapper by
+// the see-through inliner.
+func demethodise(c *Ctx) (map[string]bool, []string) {
+	changed := map[string]bool{}
+	var notes []string
+	var keys []string
+	for k := range c.Pkgs {
+		keys = append(keys, k)
+	}
+	sort.Strings(keys)
+	for _, pk := range keys {
+		if strings.HasPrefix(pk, "pkg/dialects") || strings.HasPrefix(pk, "examples") || strings.HasPrefix(pk, "cmd") {
+			continue
+		}
+		p := c.Pkgs[pk]
+		funcs, _ := declaredMembers(pk, p.Types)
+		var missing []string
+		for k := range knownSigs {
+			if strings.HasPrefix(k, pk+":") && !strings.Contains(strings.TrimPrefix(k, pk+":"), ".") {
+				if _, ok := funcs[k]; !ok {
+					missing = append(missing, k)
+				}
+			}
+		}
+		sort.Strings(missing)
+		for _, fk := range missing {
+			fname := strings.TrimPrefix(fk, pk+":")
+			// the one new method of that name
+			var mdecl *ast.FuncDecl
+			var mfile *ast.File
+			n := 0
+			for _, f := range p.Syntax {
+				for _, d := range f.Decls {
+					fd, ok := d.(*ast.FuncDecl)
+					if !ok || fd.Recv == nil || fd.Name.Name != fname || len(fd.Recv.List) != 1 {
+						continue
+					}
+					if _, isRef := knownSigs[funcKey(pk, fd)]; isRef {
+						continue
+					}
+					mdecl, mfile = fd, f
+					n++
+				}
+			}
+			if n != 1 || mdecl.Type.TypeParams != nil {
+				continue
+			}
+			star, ok := mdecl.Recv.List[0].Type.(*ast.StarExpr)
+			if !ok {
+				continue
+			}
+			tid, ok := star.X.(*ast.Ident)
+			if !ok {
+				continue
+			}
+			mobj, _ := p.TypesInfo.Defs[mdecl.Name].(*types.Func)
+			if mobj == nil {
+				continue
+			}
+			// reference signature: position of the *T parameter
+			refT, err := parser.ParseExpr(knownSigs[fk])
+			if err != nil {
+				continue
+			}
+			rft, ok := refT.(*ast.FuncType)
+			if !ok {
+				continue
+			}
+			var refTypes []string
+			for _, f := range rft.Params.List {
+				cnt := len(f.Names)
+				if cnt == 0 {
+					cnt = 1
+				}
+				for j := 0; j < cnt; j++ {
+					refTypes = append(refTypes, types.ExprString(f.Type))
+				}
+			}
+			pos := -1
+			for i, ts := range refTypes {
+				if ts == "*"+tid.Name || strings.HasSuffix(ts, "."+tid.Name) && strings.HasPrefix(ts, "*") {
+					if pos >= 0 {
+						pos = -2
+					} else {
+						pos = i
+					}
+				}
+			}
+			type prm struct {
+				name string
+				typ  ast.Expr
+			}
+			var ps []prm
+			variadic := false
+			for _, f := range mdecl.Type.Params.List {
+				if _, isV := f.Type.(*ast.Ellipsis); isV {
+					variadic = true
+				}
+				if len(f.Names) == 0 {
+					ps = append(ps, prm{"_", f.Type})
+				}
+				for _, nm := range f.Names {
+					ps = append(ps, prm{nm.Name, f.Type})
+				}
+			}
+			if pos < 0 || variadic || len(ps)+1 != len(refTypes) {
+				continue
+			}
+			// every use of the method is a call
+			var calls []*ast.CallExpr
+			callSel := map[*ast.SelectorExpr]bool{}
+			for _, f := range p.Syntax {
+				ast.Inspect(f, func(nd ast.Node) bool {
+					if ce, ok := nd.(*ast.CallExpr); ok {
+						if se, ok := ce.Fun.(*ast.SelectorExpr); ok && p.TypesInfo.Uses[se.Sel] == types.Object(mobj) {
+							calls = append(calls, ce)
+							callSel[se] = true
+						}
+					}
+					return true
+				})
+			}
+			asValue := false
+			for _, f := range p.Syntax {
+				ast.Inspect(f, func(nd ast.Node) bool {
+					if se, ok := nd.(*ast.SelectorExpr); ok && p.TypesInfo.Uses[se.Sel] == types.Object(mobj) && !callSel[se] {
+						asValue = true
+					}
+					return true
+				})
+			}
+			if asValue || len(calls) == 0 {
+				continue
+			}
+			okAll := true
+			for _, ce := range calls {
+				if len(ce.Args) != len(ps) || ce.Ellipsis != token.NoPos || !pureExpr(ce.Fun.(*ast.SelectorExpr).X) {
+					okAll = false
+				}
+			}
+			if !okAll {
+				continue
+			}
+			// turn the method declaration itself into the function: the receiver becomes the parameter at its reference
+			// position (no wrapper, so bodies with many returns need no in-lining)
+			recvField := mdecl.Recv.List[0]
+			if len(recvField.Names) == 0 {
+				recvField.Names = []*ast.Ident{{Name: "_", NamePos: recvField.Pos()}}
+			}
+			var flat []*ast.Field
+			for _, f := range mdecl.Type.Params.List {
+				if len(f.Names) <= 1 {
+					flat = append(flat, f)
+					continue
+				}
+				for _, nm := range f.Names {
+					flat = append(flat, &ast.Field{Names: []*ast.Ident{nm}, Type: f.Type})
+				}
+			}
+			nl := append([]*ast.Field{}, flat[:pos]...)
+			nl = append(nl, recvField)
+			nl = append(nl, flat[pos:]...)
+			mdecl.Type.Params.List = nl
+			mdecl.Recv = nil
+			_ = mfile
+			for _, ce := range calls {
+				se := ce.Fun.(*ast.SelectorExpr)
+				args := append([]ast.Expr{}, ce.Args[:pos]...)
+				args = append(args, se.X)
+				args = append(args, ce.Args[pos:]...)
+				ce.Fun = &ast.Ident{Name: fname, NamePos: se.Pos()}
+				ce.Args = args
+			}
+			changed[pk] = true
+			notes = append(notes, fmt.Sprintf("turned the new method %s.%s back into the reference function %s (%d call sites rewritten to function calls)", tid.Name, fname, fk, len(calls)))
 		}
 	}
 	return changed, notes
@@ -275,4 +517,363 @@ func rebase(n ast.Node, pos token.Pos) {
 		}
 		return true
 	})
+}
+
+// soleRecvIdent: e is a side-effect-free expression (selectors, comparisons, arithmetic, constants, package-level
+// names) whose only local variable is one identifier of type *T; that identifier, else nil.
+func soleRecvIdent(info *types.Info, e ast.Expr, tn *types.TypeName) *ast.Ident {
+	var recv *ast.Ident
+	ok := true
+	ast.Inspect(e, func(n ast.Node) bool {
+		switch x := n.(type) {
+		case *ast.CallExpr, *ast.FuncLit, *ast.UnaryExpr:
+			if u, isU := x.(*ast.UnaryExpr); isU && (u.Op == token.NOT || u.Op == token.SUB) {
+				return true
+			}
+			ok = false
+		case *ast.SelectorExpr:
+			// only the base matters
+			if id, isID := x.X.(*ast.Ident); isID {
+				if _, isPkg := info.Uses[id].(*types.PkgName); isPkg {
+					return false
+				}
+			}
+		case *ast.Ident:
+			o := info.Uses[x]
+			if o == nil {
+				return true
+			}
+			switch ov := o.(type) {
+			case *types.Const, *types.Nil, *types.TypeName, *types.PkgName:
+			case *types.Var:
+				if ov.IsField() {
+					return true
+				}
+				if ov.Parent() == ov.Pkg().Scope() {
+					ok = false // package variable: not a function of the receiver
+					return true
+				}
+				if !isRecvOfType(info, x, tn) || (recv != nil && info.Uses[recv] != o) {
+					ok = false
+					return true
+				}
+				recv = x
+			default:
+				ok = false
+			}
+		}
+		return true
+	})
+	if !ok {
+		return nil
+	}
+	return recv
+}
+
+// exprWithRecv renders e with every occurrence of the identifier name replaced by zzrecv.
+func exprWithRecv(e ast.Expr, name string) string {
+	s := types.ExprString(e)
+	var out []byte
+	isID := func(b byte) bool { return b == '_' || b >= '0' && b <= '9' || b >= 'a' && b <= 'z' || b >= 'A' && b <= 'Z' }
+	for i := 0; i < len(s); {
+		if strings.HasPrefix(s[i:], name) && (i == 0 || !isID(s[i-1]) && s[i-1] != '.') && (i+len(name) == len(s) || !isID(s[i+len(name)])) {
+			out = append(out, "zzrecv"...)
+			i += len(name)
+			continue
+		}
+		out = append(out, s[i])
+		i++
+	}
+	return string(out)
+}
+
+// lockSectionsToClosures: in the listed functions, whose reference form takes a mutex inside an immediately-invoked
+// closure (`func() { mu.Lock(); defer mu.Unlock(); … }()`), a critical section that is written out as
+// `mu.Lock(); …; mu.Unlock()` in one statement list is put back into that form. Only when it is plainly the same:
+// no return / goto / defer / labelled branch inside, no break or continue that leaves the section, and nothing
+// declared inside is used after it.
+var closureLockFuncs = map[string]bool{"root:nodeStreamRequest.onEventFrame": true}
+
+func lockSectionsToClosures(c *Ctx) (map[string]bool, []string) {
+	changed := map[string]bool{}
+	var notes []string
+	for pk, p := range c.Pkgs {
+		for _, f := range p.Syntax {
+			for _, d := range f.Decls {
+				fd, ok := d.(*ast.FuncDecl)
+				if !ok || fd.Body == nil || !closureLockFuncs[funcKey(pk, fd)] {
+					continue
+				}
+				var visit func(list *[]ast.Stmt)
+				visit = func(list *[]ast.Stmt) {
+					for i := 0; i < len(*list); i++ {
+						mu, isLock := lockCall((*list)[i], "Lock")
+						if !isLock {
+							continue
+						}
+						for j := i + 1; j < len(*list); j++ {
+							mu2, isUn := lockCall((*list)[j], "Unlock")
+							if !isUn || mu2 != mu {
+								continue
+							}
+							seg := (*list)[i+1 : j]
+							if !sectionIsClosed(p.TypesInfo, seg, (*list)[j+1:]) {
+								break
+							}
+							pos := (*list)[i].Pos()
+							lockStmt, unlockStmt := (*list)[i], (*list)[j]
+							body := []ast.Stmt{lockStmt, &ast.DeferStmt{Defer: pos, Call: unlockStmt.(*ast.ExprStmt).X.(*ast.CallExpr)}}
+							body = append(body, seg...)
+							lit := &ast.FuncLit{Type: &ast.FuncType{Func: pos, Params: &ast.FieldList{Opening: pos, Closing: pos}}, Body: &ast.BlockStmt{Lbrace: pos, List: body, Rbrace: (*list)[j].End() - 1}}
+							call := &ast.ExprStmt{X: &ast.CallExpr{Fun: lit, Lparen: (*list)[j].End() - 1, Rparen: (*list)[j].End() - 1}}
+							nl := append([]ast.Stmt{}, (*list)[:i]...)
+							nl = append(nl, call)
+							nl = append(nl, (*list)[j+1:]...)
+							*list = nl
+							changed[pk] = true
+							notes = append(notes, "critical section of "+funcKey(pk, fd)+" put back into an immediately-invoked closure with a deferred Unlock")
+							break
+						}
+					}
+					for _, st := range *list {
+						switch x := st.(type) {
+						case *ast.BlockStmt:
+							visit(&x.List)
+						case *ast.IfStmt:
+							visit(&x.Body.List)
+							if eb, ok := x.Else.(*ast.BlockStmt); ok {
+								visit(&eb.List)
+							}
+						case *ast.ForStmt:
+							visit(&x.Body.List)
+						case *ast.RangeStmt:
+							visit(&x.Body.List)
+						}
+					}
+				}
+				visit(&fd.Body.List)
+			}
+		}
+	}
+	return changed, notes
+}
+
+func lockCall(st ast.Stmt, name string) (string, bool) {
+	es, ok := st.(*ast.ExprStmt)
+	if !ok {
+		return "", false
+	}
+	ce, ok := es.X.(*ast.CallExpr)
+	if !ok || len(ce.Args) != 0 {
+		return "", false
+	}
+	se, ok := ce.Fun.(*ast.SelectorExpr)
+	if !ok || se.Sel.Name != name || !pureExpr(se.X) {
+		return "", false
+	}
+	return types.ExprString(se.X), true
+}
+
+func sectionIsClosed(info *types.Info, seg, after []ast.Stmt) bool {
+	ok := true
+	defined := map[types.Object]bool{}
+	for _, st := range seg {
+		depth := 0
+		var walk func(n ast.Node, breakable int)
+		walk = func(n ast.Node, breakable int) {
+			if n == nil || !ok {
+				return
+			}
+			switch x := n.(type) {
+			case *ast.ReturnStmt, *ast.DeferStmt, *ast.GoStmt, *ast.LabeledStmt, *ast.FuncLit:
+				if _, isLit := x.(*ast.FuncLit); isLit {
+					return
+				}
+				ok = false
+				return
+			case *ast.BranchStmt:
+				if x.Label != nil || x.Tok == token.GOTO || x.Tok == token.FALLTHROUGH && breakable == 0 || breakable == 0 {
+					ok = false
+				}
+				return
+			case *ast.Ident:
+				if o := info.Defs[x]; o != nil {
+					defined[o] = true
+				}
+			}
+			nb := breakable
+			switch n.(type) {
+			case *ast.ForStmt, *ast.RangeStmt, *ast.SwitchStmt, *ast.TypeSwitchStmt, *ast.SelectStmt:
+				nb++
+			}
+			ast.Inspect(n, func(m ast.Node) bool {
+				if m == n {
+					return true
+				}
+				if m != nil {
+					walk(m, nb)
+				}
+				return false
+			})
+		}
+		_ = depth
+		walk(st, 0)
+	}
+	if !ok {
+		return false
+	}
+	for _, st := range after {
+		ast.Inspect(st, func(n ast.Node) bool {
+			if id, isID := n.(*ast.Ident); isID && defined[info.Uses[id]] {
+				ok = false
+			}
+			return true
+		})
+	}
+	return ok
+}
+
+// reextractEnqueue: the reference helper Channel.write (the non-blocking hand-over of an item to a channel's queue) is
+// gone and its select statement is written out where it was called. Rules about who enqueues, and that the hand-over
+// never blocks the node loop, are anchored at that helper. Every select statement that consists of one send
+// `X.chWrite <- V` (X of type *Channel) plus receive / default clauses, all with empty bodies, is folded back into
+// a method built from the first occurrence — but only occurrences that are the same statement up to X and V; a
+// variant (say, without the default clause) stays where it is and is judged as written.
+func reextractEnqueue(c *Ctx) (map[string]bool, []string) {
+	changed := map[string]bool{}
+	var notes []string
+	p := c.Pkgs["root"]
+	if p == nil || !knownFuncs["root:Channel.write"] {
+		return changed, notes
+	}
+	// (looked up on the syntax: an earlier phase of this pass may just have re-introduced the method)
+	for _, f := range p.Syntax {
+		for _, d := range f.Decls {
+			if fd, ok := d.(*ast.FuncDecl); ok && funcKey("root", fd) == "root:Channel.write" {
+				return changed, notes
+			}
+		}
+	}
+	tobj, _ := p.Types.Scope().Lookup("Channel").(*types.TypeName)
+	if tobj == nil {
+		return changed, notes
+	}
+	type occ struct {
+		list *[]ast.Stmt
+		idx  int
+		x, v ast.Expr
+		text string
+	}
+	var occs []occ
+	render := func(n ast.Node) string {
+		var sb strings.Builder
+		printer.Fprint(&sb, c.Fset, n)
+		return sb.String()
+	}
+	var file *ast.File
+	for _, f := range p.Syntax {
+		for _, d := range f.Decls {
+			fd, ok := d.(*ast.FuncDecl)
+			if !ok || fd.Body == nil {
+				continue
+			}
+			var visit func(list *[]ast.Stmt)
+			visit = func(list *[]ast.Stmt) {
+				for i, st := range *list {
+					if sel, ok := st.(*ast.SelectStmt); ok {
+						var x, v ast.Expr
+						good := true
+						for _, cl := range sel.Body.List {
+							cc := cl.(*ast.CommClause)
+							if len(cc.Body) != 0 {
+								good = false
+							}
+							if snd, ok := cc.Comm.(*ast.SendStmt); ok {
+								se, ok := snd.Chan.(*ast.SelectorExpr)
+								if !ok || se.Sel.Name != "chWrite" || !isRecvOfType(p.TypesInfo, se.X, tobj) || !pureExpr(se.X) || !pureExpr(snd.Value) || x != nil {
+									good = false
+								} else {
+									x, v = se.X, snd.Value
+								}
+							}
+						}
+						if good && x != nil {
+							txt := replaceToken(replaceToken(render(sel), types.ExprString(x), "zzrecv"), types.ExprString(v), "zzwhat")
+							occs = append(occs, occ{list, i, x, v, txt})
+							if file == nil {
+								file = f
+							}
+							continue
+						}
+					}
+					ast.Inspect(st, func(n ast.Node) bool {
+						switch y := n.(type) {
+						case *ast.BlockStmt:
+							if ast.Node(y) != ast.Node(st) {
+								visit(&y.List)
+								return false
+							}
+						case *ast.CaseClause:
+							visit(&y.Body)
+							return false
+						case *ast.CommClause:
+							visit(&y.Body)
+							return false
+						case *ast.FuncLit:
+							visit(&y.Body.List)
+							return false
+						}
+						return true
+					})
+					if bs, ok := st.(*ast.BlockStmt); ok {
+						visit(&bs.List)
+					}
+				}
+			}
+			visit(&fd.Body.List)
+		}
+	}
+	if len(occs) == 0 {
+		return changed, notes
+	}
+	ref := occs[0].text
+	src := "package " + p.Types.Name() + "\nfunc (zzrecv *Channel) write(zzwhat interface{}) {\n" + ref + "\n}\n"
+	wf, err := parser.ParseFile(c.Fset, "zzreextract_write.go", src, 0)
+	if err != nil || len(wf.Decls) != 1 {
+		return changed, notes
+	}
+	rebase(wf.Decls[0], file.Decls[len(file.Decls)-1].End())
+	file.Decls = append(file.Decls, wf.Decls[0])
+	n := 0
+	for _, o := range occs {
+		if o.text != ref {
+			continue
+		}
+		pos := (*o.list)[o.idx].Pos()
+		(*o.list)[o.idx] = &ast.ExprStmt{X: &ast.CallExpr{Fun: &ast.SelectorExpr{X: o.x, Sel: &ast.Ident{Name: "write", NamePos: pos}}, Lparen: pos, Args: []ast.Expr{o.v}, Rparen: pos}}
+		n++
+	}
+	changed["root"] = true
+	notes = append(notes, fmt.Sprintf("re-extracted the reference helper root:Channel.write from %d identical in-line hand-over selects (%d occurrences differ and stay in line)", n, len(occs)-n))
+	return changed, notes
+}
+
+// replaceToken replaces occurrences of the (possibly dotted) name old in s by new, where old stands as a whole token
+// sequence: not preceded by an identifier character or a dot, not followed by an identifier character.
+func replaceToken(s, old, new string) string {
+	if old == "" {
+		return s
+	}
+	isID := func(b byte) bool { return b == '_' || b >= '0' && b <= '9' || b >= 'a' && b <= 'z' || b >= 'A' && b <= 'Z' }
+	var out []byte
+	for i := 0; i < len(s); {
+		if strings.HasPrefix(s[i:], old) && (i == 0 || !isID(s[i-1]) && s[i-1] != '.') && (i+len(old) == len(s) || !isID(s[i+len(old)])) {
+			out = append(out, new...)
+			i += len(old)
+			continue
+		}
+		out = append(out, s[i])
+		i++
+	}
+	return string(out)
 }
